@@ -17,7 +17,7 @@
    libdir components made of URL-safe characters (see the last theorem for what happens
    otherwise). *)
 From HT Require Import Model.Str Model.Tree Model.Paths Model.FS Spec.PathsSpec
-     Proofs.PathsProofs Proofs.FSProofs.
+     Proofs.PathsProofs Proofs.FSProofs Proofs.FSSeqProofs.
 
 (* ---- quoting ------------------------------------------------------------------------ *)
 
@@ -215,6 +215,71 @@ Theorem C12_url_names_copied_file :
 Proof. exact url_names_copied_file. Qed.
 Print Assumptions C12_url_names_copied_file.
 
+(* ---- several dependencies in one document ------------------------------------------------ *)
+
+(* Vocabulary (Proofs/FSSeqProofs.v).  For a dependency d saved with destination directory
+   dest = dir [/ libdir]:  srcp d iv is its source directory, nv d iv its directory name
+   name[-version], tgtp d dest iv = dest / nv d iv its target directory, listedp d the listed
+   script and stylesheet paths.  no_copy d: URL-sourced or source-less.  local_ok d iv: local
+   source, plain name and version, non-empty source directory.  anc_free f dest: no regular
+   file sits at dest or at one of its ancestors.  src_tgt_disjoint: no source directory
+   contains or lies in a target directory.  dep_copied f f' d dest iv: in f' the target
+   directory of d holds every listed entry (every file of the source, with all_files) with the
+   bytes the source had in f.
+
+   save_html copies the dependencies of the document one after the other.  When their
+   directory names are pairwise different -- which resolution (one object per name) is
+   there to guarantee -- no later copy disturbs an earlier one: at the end EVERY local
+   dependency of the document is completely copied, with the bytes its source had
+   before save_html started. *)
+Theorem C12_every_dependency_stays_copied :
+  forall deps f dir libdir iv o f',
+    Forall (fun d => no_copy d \/ local_ok d iv) deps ->
+    NoDup (map (fun d => nv d iv) deps) ->
+    prefix_free f -> anc_free f (destdir_of dir libdir) ->
+    src_tgt_disjoint deps (destdir_of dir libdir) iv ->
+    save_html_copy f dir libdir iv deps = (Ok o, f') ->
+    forall d, In d deps -> local_ok d iv -> dep_copied f f' d (destdir_of dir libdir) iv.
+Proof.
+  intros deps f dir libdir iv o f' Hall Hnd Hpf Ha Hdis Hc. unfold save_html_copy in Hc.
+  eapply copy_deps_all_copied; eassumption.
+Qed.
+Print Assumptions C12_every_dependency_stays_copied.
+
+(* ... and so the main sentence of the property holds for the whole document: after the
+   copy loop of save_html succeeds, the file that any listed script / stylesheet URL of any
+   of its local dependencies resolves to (against the directory of the document,
+   percent-decoded) holds the bytes of its source file. *)
+Theorem C12_every_url_names_copied_file :
+  forall deps f dir libdir iv o f' name version pkg sub scripts styles af fsegs b,
+    let d := mk_pdep name version (SrcLocal pkg sub) scripts styles af in
+    Forall (fun d => no_copy d \/ local_ok d iv) deps ->
+    NoDup (map (fun d => nv d iv) deps) ->
+    prefix_free f -> anc_free f (destdir_of dir libdir) ->
+    src_tgt_disjoint deps (destdir_of dir libdir) iv ->
+    save_html_copy f dir libdir iv deps = (Ok o, f') ->
+    In d deps -> local_ok d iv -> libdir_ok libdir = true ->
+    fsegs <> [] -> forallb file_seg fsegs = true ->
+    In (join [47] fsegs) (scripts ++ styles) ->
+    lookup f (srcp d iv ++ fsegs) = Some b ->
+    lookup f' (resolve_url dir (url_of d libdir iv (join [47] fsegs))) = Some b.
+Proof. exact every_url_names_copied_file. Qed.
+Print Assumptions C12_every_url_names_copied_file.
+
+(* The hypothesis on the directory names is needed, and it is the reason why save_html must
+   copy the RESOLVED dependencies only: two objects g-2 and g-1 of one name saved without the
+   version in the directory name share the directory o/g; copying the superseded one after
+   the other wipes the file g.js that the document's URL names (it is there when only the
+   first is copied). *)
+Theorem C12_same_directory_name_copied_twice_wipes : exists f',
+  copy_deps two_fs [two_d1; two_d2] [47; 111] false = (Ok tt, f') /\
+  nv two_d1 false = nv two_d2 false /\
+  lookup f' (tgtp two_d1 [47; 111] false ++ [[103; 46; 106; 115]]) = None /\
+  (exists f1, copy_deps two_fs [two_d1] [47; 111] false = (Ok tt, f1) /\
+     lookup f1 (tgtp two_d1 [47; 111] false ++ [[103; 46; 106; 115]]) = Some [1]).
+Proof. exact same_name_later_copy_wipes. Qed.
+Print Assumptions C12_same_directory_name_copied_twice_wipes.
+
 (* ---- non-vacuity: concrete instances ---------------------------------------------------- *)
 
 (* a path with a space, a non-ASCII letter and a percent sign: a b/e-acute%.js *)
@@ -288,6 +353,41 @@ Example C12_example_missing :
   exists_ C12_fs0 ([[115]] ++ [[110; 111; 112; 101; 46; 106; 115]]) = false /\
   copy_to_dep C12_fs0 (mk_pdep [100; 101; 112] [49; 46; 48] (SrcLocal None [47; 115]) [[97; 32; 98; 46; 106; 115]; [110; 111; 112; 101; 46; 106; 115]] [[115; 117; 98; 47; 233; 37; 46; 99; 115; 115]] false) [47; 111; 117; 116; 47; 108; 105; 98] true = (Err RuntimeError, C12_fs0).
 Proof. vm_compute. split; reflexivity. Qed.
+
+(* two local dependencies (one listing a file, one with all_files) and a URL-sourced one,
+   saved into /out/lib without version numbers: the hypotheses of
+   C12_every_dependency_stays_copied in their decidable forms, and the outcome *)
+Definition C12_fs2 : fs :=
+  [([[115]; [97; 32; 98; 46; 106; 115]], [1; 2; 3]);
+   ([[116]; [99]; [120; 46; 99; 115; 115]], [4]);
+   ([[116]; [121; 46; 106; 115]], [5]);
+   ([[111; 117; 116]; [108; 105; 98]; [100; 101; 112]; [111; 108; 100; 46; 116; 120; 116]], [9]);
+   ([[111; 117; 116]; [107; 101; 101; 112; 46; 116; 120; 116]], [7])].
+Definition C12_d1 : pdep :=
+  mk_pdep [100; 101; 112] [49; 46; 48] (SrcLocal None [47; 115]) [[97; 32; 98; 46; 106; 115]] [] false.
+Definition C12_d2 : pdep :=
+  mk_pdep [119] [50] (SrcLocal None [47; 116]) [] [[99; 47; 120; 46; 99; 115; 115]] true.
+Definition C12_d3 : pdep :=
+  mk_pdep [117] [51] (SrcUrl [104; 116; 116; 112; 115; 58; 47; 47; 120]) [[122; 46; 106; 115]] [] false.
+
+Example C12_example_three_deps :
+  prefix_free_b C12_fs2 = true /\
+  anc_free_b C12_fs2 (destdir_of [47; 111; 117; 116] (Some [108; 105; 98])) = true /\
+  forallb (fun d1 => forallb (fun d2 =>
+     disjoint (srcp d1 false) (tgtp d2 (destdir_of [47; 111; 117; 116] (Some [108; 105; 98])) false))
+     [C12_d1; C12_d2]) [C12_d1; C12_d2] = true /\
+  map (fun d => nv d false) [C12_d1; C12_d3; C12_d2] = [[100; 101; 112]; [117]; [119]] /\
+  exists f', save_html_copy C12_fs2 [47; 111; 117; 116] (Some [108; 105; 98]) false [C12_d1; C12_d3; C12_d2] = (Ok tt, f') /\
+    lookup f' [[111; 117; 116]; [108; 105; 98]; [100; 101; 112]; [97; 32; 98; 46; 106; 115]] = Some [1; 2; 3] /\
+    lookup f' [[111; 117; 116]; [108; 105; 98]; [100; 101; 112]; [111; 108; 100; 46; 116; 120; 116]] = None /\
+    lookup f' [[111; 117; 116]; [108; 105; 98]; [119]; [99]; [120; 46; 99; 115; 115]] = Some [4] /\
+    lookup f' [[111; 117; 116]; [108; 105; 98]; [119]; [121; 46; 106; 115]] = Some [5] /\
+    lookup f' [[111; 117; 116]; [107; 101; 101; 112; 46; 116; 120; 116]] = Some [7].
+Proof.
+  split; [vm_compute; reflexivity|]. split; [vm_compute; reflexivity|].
+  split; [vm_compute; reflexivity|]. split; [vm_compute; reflexivity|].
+  eexists. vm_compute. repeat split; reflexivity.
+Qed.
 
 (* What the code does NOT do: it does not quote the dependency name.  For a name that
    contains a percent escape (a%41) the URL resolves to aA-1.0/x.js while the file is copied
